@@ -518,10 +518,83 @@ def r05_4(prog, tab):
     return r
 
 
+def _reads_var(tree, v):
+    """does the tree read variable v other than by taking its address?"""
+    if not isinstance(tree, list) or not tree:
+        return False
+    if tree[0] == "un" and tree[1] == "&" and is_var(tree[2], v):
+        return False
+    if tree[0] == "var":
+        return tree[1] == v
+    for c in tree[1:]:
+        if isinstance(c, list):
+            if c and isinstance(c[0], str):
+                if _reads_var(c, v):
+                    return True
+            else:
+                for cc in c:
+                    if _reads_var(cc, v):
+                        return True
+    return False
+
+
+def r05_5(prog, tab):
+    """A length that was fetched is used.  For every call of a header fetcher that writes a length through an
+    out-parameter (`&len` of a local): the local is read somewhere after the call (in an expression other than
+    another fetch's out-argument).  A length that is fetched and ignored means the value octets it announces are not
+    accounted for: the decoder reports success on a prefix and takes contents octets for the next header."""
+    r = Rule("R05.5", "a length written by a header fetcher through an out-parameter is read afterwards", floor=8)
+    fetchers = {"ber_fetch_length", "oer_fetch_length", "oer_fetch_quantity"}      # their out-parameter is a length / count
+    for f in sorted(prog.funcs.values(), key=lambda f: f.key):
+        n = 0
+        for b, i, e in f.calls():
+            if e.get("callee") not in fetchers:
+                continue
+            outs = []
+            for a in e.get("args", []):
+                t = strip_casts(a.get("tree"))
+                if isinstance(t, list) and t and t[0] == "un" and t[1] == "&" and is_var(t[2]) and strip_casts(t[2])[2] == "local":
+                    outs.append(strip_casts(t[2])[1])
+            for v in outs:
+                n += 1
+                key = "%s(&%s)#%d" % (e["callee"], v.split("@")[0], n)
+                reach = f.reachable_from([b.id])
+                read = False
+                for bid in reach:
+                    blk = f.blocks[bid]
+                    for j, y in enumerate(blk.ev):
+                        if bid == b.id and j <= i:
+                            continue
+                        trees = []
+                        if y["k"] == "call":
+                            for a in y.get("args", []):
+                                t = strip_casts(a.get("tree"))
+                                if isinstance(t, list) and t and t[0] == "un" and t[1] == "&" and is_var(t[2], v):
+                                    continue
+                                trees.append(a.get("tree"))
+                        else:
+                            for fld in ("rhs", "init", "expr"):
+                                if fld in y:
+                                    trees.append(y[fld]["tree"])
+                            if y["k"] in ("subscript",) and "index" in y:
+                                trees.append(y["index"]["tree"])
+                        if any(_reads_var(t, v) for t in trees):
+                            read = True
+                    if blk.term and "cond" in blk.term:
+                        if _reads_var(blk.term["cond"].get("full_tree") or blk.term["cond"]["tree"], v):
+                            read = True
+                if read:
+                    r.ok(f, key, "the fetched value is read after the call", e["line"])
+                else:
+                    r.bad(f, key, "`%s` receives the length from %s and is never read: the octets it announces are neither checked against the "
+                                  "input nor skipped" % (v.split("@")[0], e["callee"]), e["line"])
+    return r
+
+
 def run(ctx):
     prog = ctx.prog("S")
     tab = load_tables("c05")
-    return run_rules(prog, tab) + [r05_3(prog, tab), r05_4(prog, tab)]
+    return run_rules(prog, tab) + [r05_3(prog, tab), r05_4(prog, tab), r05_5(prog, tab)]
 
 
 def thorough(ctx):
